@@ -38,6 +38,18 @@ class Topo:
         self.names = list(filters)
         self.maxseq, self.conn_ticks, self.pub_hwm, self.push_hwm, self.handshake = maxseq, conn_ticks, pub_hwm, push_hwm, handshake
         self.topic_order = list(topic_order)
+        # every topic name that can ever be published (remapped names are republished by relays) needs a place in the order
+        extra = []
+        for d in filters.values():
+            for s_ in d.get('srcs', []):
+                extra += [b for _, b in s_['tmap']]
+            bh = d.get('beh') or {}
+            extra += [b for _, b in bh.get('ren', [])]
+            for ts in bh.get('tseq', []):
+                extra += list(ts)
+        for t in extra:
+            if t not in self.topic_order:
+                self.topic_order.insert(len(self.topic_order) - 1 if self.topic_order and self.topic_order[-1] == HTOPIC else len(self.topic_order), t)
         self.fidx = {f: i + 1 for i, f in enumerate(self.names)}
         for f, d in filters.items():
             d.setdefault('srcs', [])
